@@ -229,6 +229,9 @@ func (ps *cparser) primary() CExpr {
 		}
 		return &CLit{constant.MakeString(s)}
 	case "id":
+		if (t.s == "forall" || t.s == "exists") && ps.peek().kind != "id" {
+			return &CIdent{t.s} // a program variable that happens to be called exists / forall
+		}
 		switch t.s {
 		case "forall", "exists":
 			q := &CQuant{Forall: t.s == "forall"}
